@@ -24,6 +24,7 @@ RULES_DOC["X4"] = common.X4_DOC
 RULES_DOC["R6"] = "= C05.R1: the timed wait releases the mutex and enqueues inside one critical section of the condition's lock (a signal cannot fall between them and be lost until the timeout)"
 RULES_DOC["R7"] = "= C07.R6: the blocking pool pushes signal under the mutex for every push (each of several waiters in pop_wait / pop_timedwait is woken by its own push)"
 RULES_DOC["R8"] = "= C07.R1: the waiting pops of the shared pools release the pool lock on every path (a waiter that finds the queue empty does not leave with the lock)"
+RULES_DOC["X5"] = common.X5_DOC
 RULES_DOC.update({
     "R1": "timeout code: reached only after now >= target_time, with the lock held; is_timedout (= state != READY) and all unlink stores under the lock",
     "R2": "unlink distinguishes head/middle/tail and repairs p_head, p_tail, predecessor->p_next and successor->p_prev accordingly",
@@ -428,6 +429,7 @@ def _has_cycle(F, nodes):
 
 
 def run(P, rep, tier):
+    common.rule_widths(P, rep, [('ABTD_futex_multiple', 'val')])
     common.rule_X4(P, rep)
     common.run_shared(P, rep, which=("X2", "X3"))
     rule_R1(P, rep)
